@@ -2,7 +2,7 @@
    abstract file f, [enc_file f (encode_file f)] - so the grammar relation of C03/C04 is
    inhabited for every file, and (C03) parsing the canonical encoding returns f. *)
 Require Import Sml.Base.Prelude Sml.Base.Crc Sml.Model.Parser Sml.Spec.TlfRef Sml.Spec.Grammar Sml.Spec.Canon.
-Require Import Sml.Proofs.ParserTotal Sml.Proofs.ParserGrammar.
+Require Import Sml.Proofs.ParserTotal Sml.Proofs.ParserGrammar Sml.Proofs.CrcRange.
 
 (* ---------- type-length fields ---------- *)
 Lemma leb128 n : 128 <=? 128 + n = true.
@@ -318,53 +318,6 @@ Qed.
 
 Lemma swap16_lt x : x < 65536 -> swap16 x < 65536.
 Proof. intros H. unfold swap16. lia. Qed.
-
-(* ---------- the CRC register stays a 16-bit value ---------- *)
-Lemma lt_pow2_log2 a n : 0 < n -> (a < 2 ^ n <-> a = 0 \/ N.log2 a < n).
-Proof.
-  intros Hn. destruct (N.eq_dec a 0) as [->|Ha].
-  - split; [auto|intros _; apply N.neq_0_lt_0, N.pow_nonzero; lia].
-  - rewrite <- N.log2_lt_pow2 by lia. split; [auto|intros [E|H]; [congruence|exact H]].
-Qed.
-
-Lemma lxor_lt a b n : 0 < n -> a < 2 ^ n -> b < 2 ^ n -> N.lxor a b < 2 ^ n.
-Proof.
-  intros Hn Ha Hb. apply (lt_pow2_log2 _ n Hn).
-  destruct (N.eq_dec (N.lxor a b) 0) as [E|E]; [left; exact E|right].
-  apply (proj1 (lt_pow2_log2 a n Hn)) in Ha. apply (proj1 (lt_pow2_log2 b n Hn)) in Hb.
-  pose proof (N.log2_lxor a b) as L.
-  destruct Ha as [->|Ha]; destruct Hb as [->|Hb].
-  - rewrite N.lxor_0_l in E. congruence.
-  - rewrite N.lxor_0_l. exact Hb.
-  - rewrite N.lxor_0_r. exact Ha.
-  - lia.
-Qed.
-
-Lemma crc_bit_lt n : forall c, c < 65536 -> crc_bit n c < 65536.
-Proof.
-  induction n as [|n IH]; intros c Hc; cbn [crc_bit]; [exact Hc|]. apply IH.
-  assert (Hs : N.shiftr c 1 < 65536) by (rewrite N.shiftr_div_pow2; change (2 ^ 1) with 2; lia).
-  destruct (N.testbit c 0); [|exact Hs].
-  change 65536 with (2 ^ 16). apply lxor_lt; [lia|exact Hs|cbn; lia].
-Qed.
-
-Lemma crc_step_lt c b : c < 65536 -> b < 256 -> crc_step c b < 65536.
-Proof.
-  intros Hc Hb. unfold crc_step. apply crc_bit_lt. change 65536 with (2 ^ 16).
-  apply lxor_lt; [lia|exact Hc|]. change (2 ^ 16) with 65536. lia.
-Qed.
-
-Lemma crc_update_lt bs : forall c, c < 65536 -> bytes_ok bs -> crc_update c bs < 65536.
-Proof.
-  induction bs as [|b r IH]; intros c Hc Hb; [exact Hc|]. inversion Hb; subst.
-  unfold crc_update. cbn [fold_left]. apply IH; [apply crc_step_lt; assumption|assumption].
-Qed.
-
-Lemma crc16_lt bs : bytes_ok bs -> crc16 bs < 65536.
-Proof.
-  intros H. unfold crc16, crc_finalize. change 65536 with (2 ^ 16). apply lxor_lt; [lia| |cbn; lia].
-  change (2 ^ 16) with 65536. apply crc_update_lt; [unfold crc_init; lia|exact H].
-Qed.
 
 (* ---------- the encodings are byte strings ---------- *)
 Ltac bok := repeat (match goal with |- bytes_ok (_ ++ _) => apply bytes_ok_app; split end);
